@@ -5,6 +5,7 @@ import TrippyVerif.Model.Ext
 import TrippyVerif.Model.StateAgg
 import TrippyVerif.Model.BuilderIO
 import TrippyVerif.Model.Wire
+import TrippyVerif.Model.Channel
 import TrippyVerif.Model.TuiIO
 /-
 Line-protocol driver: one request per input line, one answer per output line.
@@ -17,6 +18,7 @@ requests; `/verif/check` diffs the two answer streams.
   agg new|round|dump|get …                  the state aggregator (stateful; C05 C10 C15 C19)
   cfgb build|cli …                          Builder::build / CLI validation model (C16)
   wire send|recv|tcp|cksum|slice|errmap …   the channel: probe encoding, response decoding (C02 C04 C11)
+  chan connect|send|recv|clock …            Channel<S>: connect, send_probe, recv_probe, TCP probe list (stateful)
   tui new|data|key|frame …                  the TUI selection state machine (stateful; C17 C18)
   tid <pid> <i>                             the trace identifier the CLI assigns (C03)
   st cfg … / st it …                  the tracing state machine (stateful; C03 C06 C07 C08 C09)
@@ -27,6 +29,7 @@ structure DState where
   st : Strat.DSt := {}
   agg : Agg.DSt := {}
   tui : Tui.DSt := {}
+  chan : Chan.DSt := {}
 
 def step (d : DState) (line : String) : DState × String :=
   match line.trimAscii.toString.splitOn " " with
@@ -49,6 +52,9 @@ def step (d : DState) (line : String) : DState × String :=
     | some p, some k => (d, toString (Strat.cliTraceId p k))
     | _, _ => (d, "bad-op")
   | "wire" :: rest => (d, (Wire.handle rest).getD "bad-op")
+  | "chan" :: args =>
+    let (c', out) := Chan.handle d.chan args
+    ({ d with chan := c' }, out)
   | "tui" :: args =>
     let (t', out) := Tui.handle d.tui args
     ({ d with tui := t' }, out)
